@@ -63,14 +63,29 @@ pub fn run(cx: &mut Ctx, args: &Args, rng: &mut Rng) -> i32 {
                 observe(cx, &data, &mut seen);
                 cx.many(id, inst.as_ref(), dir, Shape::ALL[r.below(3)], &data, r.below(16), r.below(16), None);
             }
-            // relations between the lanes of a parallel chunk (equal blocks in some lanes, see rng::lane_pattern)
-            for _ in 0..nrandom + 1 {
-                let (_, pat) = crate::rng::lane_pattern(&mut r, par.max(1));
-                let vals: Vec<Vec<u8>> = (0..par.max(3)).map(|_| r.bytes(bs)).collect();
-                let n = 2 * par + r.below(par.max(1));
-                let data: Vec<u8> = (0..n).flat_map(|j| vals[pat[j % par.max(1)]].clone()).collect();
-                observe(cx, &data, &mut seen);
-                cx.many(id, inst.as_ref(), dir, Shape::ALL[r.below(3)], &data, r.below(16), r.below(16), None);
+            // relations between the lanes of a parallel chunk (rng::lane_pattern): lanes equal as whole blocks, or only in
+            // their first or second half (the other half random) - every pattern, for backends that process lanes together
+            if par > 1 {
+                for k in 0..7 {
+                    let (_, pat) = crate::rng::lane_pattern_k(&mut r, par, k);
+                    let mode = (k + salt[0] as usize) % 3;
+                    let vals: Vec<Vec<u8>> = (0..par.max(3)).map(|_| r.bytes(bs)).collect();
+                    let n = 2 * par + r.below(par);
+                    let data: Vec<u8> = (0..n)
+                        .flat_map(|j| {
+                            let mut b = vals[pat[j % par]].clone();
+                            let fresh = r.bytes(bs);
+                            match mode {
+                                1 => b[bs / 2..].copy_from_slice(&fresh[bs / 2..]),
+                                2 => b[..bs / 2].copy_from_slice(&fresh[..bs / 2]),
+                                _ => {}
+                            }
+                            b
+                        })
+                        .collect();
+                    observe(cx, &data, &mut seen);
+                    cx.many(id, inst.as_ref(), dir, Shape::ALL[r.below(3)], &data, r.below(16), r.below(16), None);
+                }
             }
             // long batches (block counters wider than a byte / a 16-bit word): few distinct values, period coprime to the widths
             for &n in &[257 + r.below(64), args.num("huge", 0) as usize] {
